@@ -1,5 +1,6 @@
 import TrionModel.Lemmas.C04Frame
 import TrionModel.Props.C04Text
+import TrionModel.Props.C04Mix
 /-!
 # C04 closed on text — ANY spelling of the statement that is a sequence of white space and tokens
 
@@ -135,5 +136,26 @@ example : Asm.run (fun _ => some (bytesOf ".addr 0;\nLDR\tr0 ,[(0x4) + sp]\n;"))
   exact (run_any (fun _ => some (bytesOf ".addr 0;\nLDR\tr0 ,[(0x4) + sp]\n;")) [] 0 [] (by simp) exPieces exPieces_valid
     (bytesOf "LDR") exPArgs exPArgs_wf (by decide) (by rw [ht]) [] rfl
     (.ldr 0 13 (.imm 4)) (by decide) (by decide) [0x9801] rfl (by decide)).1
+
+/-- C04a.d  **Any spelling, extended operands: assembled to the meaning or diagnosed at the statement** (`run_defs_stmt2`
+on the program text `progTextP A defs ps`). -/
+theorem run_any2 (fs : Bytes → Option Bytes) (main : Bytes) (A : Nat) (hA : A < 4294967296) (defs : List (Bytes × Arg))
+    (hdefsok : ∀ d ∈ defs, Lex.identOk d.1 = true ∧ Show.Opnd d.2) (ps : List Lex.Piece) (hv : Lex.Valid ps none)
+    (name : Bytes) (as : PArgs) (haswf : as.wf)
+    (hvals : Lex.tokVals ps = .ident name :: Render.pargs as ++ [.term])
+    (hfs : fs main = some (progTextP A defs ps))
+    (tbl : Asm.Table) (hdefs : defsTable defs [] = some tbl)
+    (t : Instr) (hm : mnemonic name = some t) (hw : wellFormed2 (tabOf tbl) (sig t) as.erase.toList)
+    (hq : ∀ vs, denoteAll2 (tabOf tbl) (sig t) as.erase.toList = some vs → ¬ svQuirk t vs) :
+    (∃ i hws, means2 (tabOf tbl) A name as.erase.toList = some i ∧ i.wf ∧ Codec.encode i = .ok hws ∧ Arm.decode hws = some i ∧
+      (A + 2 * hws.length ≤ 4294967296 →
+        Asm.run fs main = .done ⟨true, none, true, [], [(A, (Codec.toBytes hws).map (·.toUInt8))]⟩)) ∨
+    (∃ els el o, Asm.parseFile (progTextP A defs ps) = .ok (els, none) ∧ el ∈ els ∧ el.val = .instruction name as.erase ∧
+      Asm.run fs main = .done o ∧ o.success = false ∧ o.diags ≠ [] ∧
+      ∀ d ∈ o.diags, d.file = main ∧ d.line = el.line ∧ d.col = el.col) := by
+  obtain ⟨els, hp, hels⟩ := parseFile_pieces A hA defs hdefsok ps hv name as haswf hvals
+  rcases run_defs_stmt2 fs main _ hfs els hp A hA defs name as.erase hels tbl hdefs t hm hw hq with h | ⟨el, o, h⟩
+  · exact .inl h
+  · exact .inr ⟨els, el, o, hp, h⟩
 
 end Trion.C04
